@@ -67,6 +67,17 @@ def replay_script(ctx, prop, ob, res):
         if is_z3(rv) and not mentions_havoc(rv):
             pred["call%d" % ci] = mval(model, rv)
     final = sc["final"]
+    if isinstance(final, list):
+        # several outcomes: the one whose path condition the model satisfies
+        pick = None
+        for cand in final:
+            try:
+                if z3.is_true(model.eval(cand.pcond(), model_completion=True)):
+                    pick = cand
+                    break
+            except z3.Z3Exception:
+                pass
+        final = pick
     if final is not None:
         for oid in list(final.heap.keys()):
             if oid in pre.heap and final.otype.get(oid) is not None and str(oid) in {k.split(".")[0] for k in out}:
